@@ -522,6 +522,67 @@ template<class T> struct Driver {
       { Ev e("Obs"); e.i("id", 1).raw("r", proj_json(project(*sk[1]))); e.emit(); }
     }
   }
+  // (f) infinities as the extremes of a long stream (at most one +inf and one -inf: each is then a protected single-value
+  // extreme centroid and no mean is computed from inf - inf), judged by a DENSE quantile sweep: every half rank j / (2n) of the
+  // lowest and highest few hundred ranks must give a non-NaN value within [min, max], non-decreasing
+  void directed_inf_extremes(long seg, int k, long n, bool pinf, bool ninf) {
+    begin_segment(seg, "infinite-extremes-dense-quantile-sweep");
+    mode = 1; mk(0, k);
+    long at_p = pinf ? (long)g.below((uint64_t)n) : -1, at_n = ninf ? (long)g.below((uint64_t)n) : -1;
+    if (at_n == at_p && ninf) at_n = (at_p + 1) % n;
+    std::vector<double> run;
+    for (long j = 0; j < n; j++) {
+      if (j == at_p || j == at_n) { if (!run.empty()) { do_updates(0, run); run.clear(); } do_inf(0, j == at_p ? INFINITY : -INFINITY); }
+      else run.push_back(draw());
+    }
+    if (!run.empty()) do_updates(0, run);
+    for (int round = 0; round < 2; round++) {
+      const double tot2 = 2.0 * (double)last[0].total;
+      std::vector<double> ps = {0.0, 0.5, 1.0};
+      for (long j = 0; j <= 1400; j++) { ps.push_back((double)j / tot2); ps.push_back((tot2 - (double)j) / tot2); }
+      for (int j = 1; j < 64; j++) ps.push_back(j / 64.0);
+      do_quantgrid(0, ps);
+      if (round == 0) do_updates(0, some(g.range(1, 300)));
+    }
+  }
+  // (g) wide counters: total weight driven past 2^32 by merge doublings (t.merge(copy of t)); every value is logged as two
+  // limbs (24 bits and the rest), centroid weights too; then images through both paths, with and without buffer
+  static std::string limbs(unsigned long long v) { return "[" + std::to_string(v & 0xffffffULL) + "," + std::to_string(v >> 24) + "]"; }
+  void wide_state(Ev& e, const TD& t) {
+    Proj p = project(t);
+    std::string cw = "[";
+    for (size_t j = 0; j < p.cent.size(); j++) { if (j) cw += ","; cw += limbs((unsigned long long)p.cent[j].w); }
+    cw += "]";
+    e.raw("total", limbs((unsigned long long)p.total)).raw("cw", cw).i("nb", p.nb).i("nc", p.nc).d("min", p.empty ? 0 : p.mn).d("max", p.empty ? 0 : p.mx);
+  }
+  void directed_wide(long seg) {
+    begin_segment(seg, "total-weight-beyond-2^32");
+    std::unique_ptr<TD> w[4];
+    w[0].reset(new TD(10));
+    { Proj p = project(*w[0]); Ev("WNew").i("id", 0).i("k", 10).i("cap", p.cap).emit(); }
+    auto upd = [&](int i, long m) { auto vals = some(m); for (double v : vals) w[i]->update((T)v); Ev e("WStep"); e.i("id", i).str("op", "update").dl("vs", vals); wide_state(e, *w[i]); if (i >= 2) e.b("restored", true); e.emit(); };
+    auto mrg = [&](int i, int src) { TD tmp(*w[src]); w[i]->merge(tmp); Ev e("WStep"); e.i("id", i).str("op", "merge").i("src", src); wide_state(e, *w[i]); if (i >= 2) e.b("restored", true); e.emit(); };
+    upd(0, 8);
+    for (int d = 0; d < 30; d++) { mrg(0, 0); if (d % 9 == 4) upd(0, g.range(1, 30)); }      // 8 * 2^30 > 2^32
+    { w[1].reset(new TD(*w[0])); Ev e("WCopy"); e.i("src", 0).i("dst", 1); wide_state(e, *w[1]); e.emit(); }
+    upd(1, 3);
+    int b = 0;
+    for (int wb = 1; wb >= 0; wb--) for (int path = 0; path < 2; path++, b++) {
+      TD& t = *w[1];
+      if (wb) upd(1, 5);                              // something in the buffer
+      auto bytes0 = t.serialize(0, wb != 0);
+      std::ostringstream os; t.serialize(os, wb != 0); std::string st = os.str();
+      { Ev e("WSer"); e.i("src", 1).i("blob", b).b("wb", wb != 0).i("size", (long long)bytes0.size()).i("advertised", (long long)t.get_serialized_size_bytes(wb != 0))
+          .bytes("img", bytes0.data(), bytes0.size()).bytes("simg", st.data(), st.size()); wide_state(e, t); e.emit(); }
+      long long consumed;
+      if (path == 0) { w[2].reset(new TD(TD::deserialize(bytes0.data(), bytes0.size()))); consumed = (long long)bytes0.size(); }
+      else { std::istringstream is(st + std::string(16, '\x5a')); w[2].reset(new TD(TD::deserialize(is))); consumed = (long long)is.tellg(); }
+      auto re = w[2]->serialize(0, true);
+      { Ev e("WDeser"); e.i("blob", b).i("dst", 2).str("path", path ? "stream" : "bytes").i("consumed", consumed).bytes("reimg", re.data(), re.size());
+        wide_state(e, *w[2]); e.b("restored", true).emit(); }
+      upd(2, g.range(1, 20)); mrg(2, 0); mrg(2, 2);   // the restored sketch keeps counting
+    }
+  }
   // (c) one long stream, with a quantile grid now and then
   void directed_long_stream(long seg, int k, long n) {
     begin_segment(seg, "long-stream");
@@ -709,7 +770,9 @@ int main(int argc, char** argv) {
       case 3: d.directed_query_each(0, 200, 1500); break;
       case 4: d.directed_merge_chain(0, 200, 400); break;
       case 5: d.directed_degenerate(0); d.directed_degenerate(1); break;
-      default: d.directed_long_stream(0, directed % 2 ? 200 : 100, 1200000); break;
+      case 6: d.directed_inf_extremes(0, 10, 16384, true, false); d.directed_inf_extremes(1, 10, 32768, true, true);
+              d.directed_inf_extremes(2, 20, 16384, false, true); d.directed_inf_extremes(3, 10, 20000 + (long)g.below(20000), true, g.chance(50)); break;
+      default: d.directed_long_stream(0, directed % 2 ? 200 : 100, 1200000); break;   // 7, 8
     }
   } else if (trials > 0) {
     Ev("Begin").i("seg", 0).str("T", "stat").d("zero", 0.0).d("one", 1.0).emit();
@@ -725,7 +788,7 @@ int main(int argc, char** argv) {
   } else {
     if (vt::argl(argc, argv, "--restore", 0) > 0) {   // directed C09 segments, present in every run of the job
       alarm(120);
-      { Driver<double> d(g, serde_pct); d.hdr_pct = hdr_pct; d.directed_restore(-1); }
+      { Driver<double> d(g, serde_pct); d.hdr_pct = hdr_pct; d.directed_restore(-1); d.directed_wide(-3); }
       { Driver<float> d(g, serde_pct); d.hdr_pct = hdr_pct; d.directed_restore(-2); }
     }
     for (long seg = 0; seg < segments; seg++) {
